@@ -795,7 +795,9 @@ def _layout_strategy():
                     top = 0xFFFFFFFF if name == "image_version" else 0xFFFF
                     segs[name] = {"v": draw(st.one_of(st.sampled_from([0, 1, top]), st.integers(0, top)))}
                 continue
-            if draw(st.integers(0, 2)) == 0:
+            # XMCD objects are slow (the area deep-copies its database record on every register access): supplied less often here,
+            # part 'tuples' has one on every tuple whose table has the segment
+            if draw(st.integers(0, 2)) == 0 or (name == "xmcd" and draw(st.integers(0, 2)) != 0):
                 continue
             if name in L.RAW_SEGMENTS:
                 segs[name] = {"n": draw(_size_strategy(L.NOMINAL_SIZE[name], tab.gap(name))), "seed": draw(st.integers(0, (1 << 32) - 1))}
